@@ -12,7 +12,7 @@
      winner_b              which goroutine's result the final select takes: any;
      cut_a, cut_b          after how many outer-loop iterations the timeout stops matchA / matchB: any. *)
 From Coq Require Import List ZArith NArith Bool Permutation Sorting.Sorted.
-From Herc Require Import Plumbing.Renames Plumbing.RenamesProofs Plumbing.RenamesChan.
+From Herc Require Import Plumbing.Renames Plumbing.RenamesProofs Plumbing.RenamesChan Plumbing.RenamesFast.
 Import ListNotations.
 
 (* ---- the output is a re-pairing of the input ---- *)
@@ -152,6 +152,24 @@ Theorem C13_exact_oracle_sound : forall inp out, exact_b inp out = true ->
 Proof. exact exact_b_sound. Qed.
 Print Assumptions C13_exact_oracle_sound.
 
+(* the fast variants the driver uses on large change sets (theories/Plumbing/RenamesFast.v): the re-pairing oracle
+   with merge sort instead of repeated removal (the modifications expected first, in input order, as Consume
+   emits them) ... *)
+Theorem C13_repairing_fast_oracle_sound : forall inp out, repairing_fast_b inp out = true ->
+  exists rest, Permutation out (mods inp ++ rest) /\ Permutation (froms rest) (dels inp) /\
+               Permutation (tos rest) (adds inp) /\ Forall (fun c => nonempty c = true) rest.
+Proof. exact repairing_fast_sound. Qed.
+Print Assumptions C13_repairing_fast_oracle_sound.
+
+(* ... and the count clause evaluated hash by hash on the changes that carry the hash on some side *)
+Theorem C13_exact_by_buckets_sound : forall inp out,
+  (forall h, In h (hashes_of inp out) ->
+             exact_at (filter (touches h) inp) (filter (touches h) out) h = true) ->
+  forall h, count_same h out =
+            (count_same h (mods inp) + Nat.min (count_hash h (adds inp)) (count_hash h (dels inp)))%nat.
+Proof. exact exact_by_buckets_sound. Qed.
+Print Assumptions C13_exact_by_buckets_sound.
+
 (* ---- non-vacuity ---- *)
 (* the assumptions on sort.Sort are satisfiable (insertion sort, which is what sort.Sort runs on up to
    12 elements, has them) *)
@@ -206,6 +224,22 @@ Example C13_example_run :
   exact_b ex_input [ (Some (mkEntry 3 (ex_hash 9) 10), None); (None, Some (mkEntry 2 (ex_hash 9) 10)) ] = false.
 Proof.
   split; [vm_compute; reflexivity|]. split; [vm_compute; reflexivity|]. split; [vm_compute; reflexivity|].
+  split.
+  - intros w c [<-|[<-|[]]] [<-|[<-|[<-|[]]]]; vm_compute; reflexivity.
+  - split; vm_compute; reflexivity.
+Qed.
+
+(* the fast oracles accept the same runs and reject the same wrong outputs *)
+Example C13_example_fast_oracles :
+  (forall w c, In w [true; false] -> In c [0; 1; 5]%nat ->
+     match ex_run w c with
+     | Ok out => repairing_fast_b ex_input out
+                 && forallb (fun h => exact_at (filter (touches h) ex_input) (filter (touches h) out) h) (hashes_of ex_input out)
+     | _ => false end = true) /\
+  repairing_fast_b ex_input (removelast (match ex_run true 0 with Ok out => out | _ => [] end)) = false /\
+  (let out := [ (Some (mkEntry 3 (ex_hash 9) 10), None); (None, Some (mkEntry 2 (ex_hash 9) 10)) ] in
+   exact_at (filter (touches (ex_hash 9)) ex_input) (filter (touches (ex_hash 9)) out) (ex_hash 9)) = false.
+Proof.
   split.
   - intros w c [<-|[<-|[]]] [<-|[<-|[<-|[]]]]; vm_compute; reflexivity.
   - split; vm_compute; reflexivity.
